@@ -131,6 +131,10 @@ def chkLine (st : RibSt) (ts : List Tok) : RibSt :=
               let resp := all.drop n
               let st := if impl && wants.any (fun w => !(resp.any (fun e => e.ni == w.ni && e.kind == w.kind && e.key == w.key)))
                 then st.monfail "c17" "GetResponseHasEntries passed although a wanted entry is absent" else st
+              -- and the converse (on inputs outside the documented exclusions, i.e. where the model passes)
+              let st := if !impl && pan == "" && getResponseHasEntries resp wants &&
+                    wants.all (fun w => resp.any (fun e => e.ni == w.ni && e.kind == w.kind && e.key == w.key))
+                then st.monfail "c17" "GetResponseHasEntries reported a fatal failure although every wanted entry is present in the response" else st
               verdict st c (getResponseHasEntries resp wants) impl pan
             | _, _ => bad st
           | _ => bad st
